@@ -62,6 +62,9 @@ func genTStep(rt *rapid.T, nc int, hostile bool) TStep {
 		}
 	case "CreatePermission", "Connect":
 		st.P = rapid.SampledFrom([]int{0, 0, 0, 1, 1, 2, 3}).Draw(rt, "p")
+		if op == "Connect" {
+			st.Mapped = rapid.IntRange(0, 3).Draw(rt, "mapped") == 0
+		}
 		if op == "Connect" && rapid.IntRange(0, 5).Draw(rt, "slowDial") == 0 {
 			st.N = rapid.SampledFrom([]int{1, 3, 10, 29, 31, 45}).Draw(rt, "dialS")
 		}
